@@ -664,7 +664,11 @@ class TorchBackendProvider(BackendProvider):
         """Floor a value and convert to integer."""
         if not isinstance(a, torch.Tensor):
             a = self.kg_asarray(a)
-        return torch.floor(a.float()).to(int)
+        if not a.is_floating_point():
+            # integers are already floored; a detour through float32 would
+            # round every |n| > 2**24 (e.g. _16777217 gave 16777216)
+            return a.to(int)
+        return torch.floor(a).to(int)
 
     def power(self, a, b):
         """Compute a^b, handling gradient tracking for torch tensors."""
